@@ -13,7 +13,7 @@ if [ -n "$(git -C /repo status --porcelain)" ]; then echo "/repo not clean"; exi
 if ! git -C /repo apply "$PATCH"; then echo "patch does not apply"; exit 2; fi
 SAVE=$(mktemp -d /dev/shm/verif-seedsave.XXXX)
 cp -a evidence replays $SAVE/ 2>/dev/null
-trap 'git -C /repo checkout -- . ; git -C /repo clean -fdq go bin 2>/dev/null; rm -rf /verif/evidence /verif/replays; cp -a $SAVE/evidence $SAVE/replays /verif/ 2>/dev/null; rm -rf $SAVE' EXIT
+trap 'git -C /repo checkout -- . ; git -C /repo clean -fdq go bin 2>/dev/null; rm -rf /verif/evidence /verif/replays; cp -a $SAVE/evidence $SAVE/replays /verif/ 2>/dev/null; rm -rf $SAVE; ./build.sh > /dev/null 2>&1' EXIT
 if ! ./build.sh > .build.log 2>&1; then echo "BUILD FAILED"; tail -5 .build.log; exit 3; fi
 for c in $CHECKS; do
   out=$(./.build/verif $c quick 2>&1); rc=$?
